@@ -10,27 +10,44 @@ COQ_FILES = ['Base/Mat.v', 'Base/SumQ.v', 'Model/Clustering.v', 'Proofs/Clusteri
              'Proofs/ClusteringReduce.v', 'Model/Distance.v', 'Model/EfficiencyLocal.v', 'Model/Assortativity.v',
              'Model/IgnoreWeights.v', 'Model/Walks.v',
              'Proofs/ReduceDistance.v', 'Proofs/ReduceEfficiencyLocal.v', 'Proofs/ReduceAssortativity.v',
-             'Proofs/ReduceTotal.v', 'Proofs/ReduceIgnore.v', 'Properties/C10.v']
+             'Proofs/ReduceTotal.v', 'Proofs/ReduceIgnore.v', 'Model/ClusteringInf.v', 'Proofs/ReduceSelfloop.v',
+             'Proofs/ReduceElocDiv.v', 'Proofs/ReduceBinFirst.v', 'Model/Between.v', 'Proofs/BetweenPow.v', 'Properties/C10.v']
 THEOREMS = ['C10_cc_wu_bin_eq_bu', 'C10_cc_wd_bin_eq_bd', 'C10_trans_wu_bin_eq_bu', 'C10_trans_wd_bin_eq_bd',
             'C10_cc_bd_sym_eq_bu', 'C10_cc_wd_sym_eq_wu', 'C10_trans_bd_sym_eq_bu', 'C10_trans_wd_sym_eq_wu',
             'C10_cbrt_exact_ok_binary', 'C10_strengths_bin_eq_degrees', 'C10_in_out_deg_sym', 'C10_degrees_ignore_weights',
             'C10_distance_wei_bin_eq_bin', 'C10_efficiency_wei_bin_eq_bin', 'C10_efficiency_local_wei_bin_eq_bin',
             'C10_efficiency_local_cbrt_exact', 'C10_assortativity_wei_bin_eq_bin', 'C10_assortativity_bin_ignores_weights',
             'C10_density_ignores_weights', 'C10_jdegree_ignores_weights', 'C10_edge_nei_overlap_ignores_weights',
-            'C10_findwalks_reachdist_ignore_weights', 'C10_distance_efficiency_bin_ignore_weights']
+            'C10_findwalks_reachdist_ignore_weights', 'C10_distance_efficiency_bin_ignore_weights',
+            'C10_betweenness_wei_bin_eq_bin', 'C10_edge_betweenness_wei_bin_eq_bin', 'C10_cc_visible_quotient',
+            'C10_cc_any_diagonal', 'C10_cc_wu_bu_selfloop_refuted', 'C10_cc_bd_bu_selfloop_refuted',
+            'C10_eloc_no_division_by_zero', 'C10_binarize_first_suffices']
 RULE = ('pairs of public functions evaluated on the same matrix: all undirected 0/1 graphs n<=4 (quick) / n<=5 (thorough), all '
         'digraphs n<=3 / n<=4, random 0/1 graphs and symmetric weighted graphs n<=8 (weights m^3/512), disconnected graphs, '
         'isolated nodes; weighted (directed and undirected, weights k/8 and >1) vs binarised input for the routines whose '
         'docstring says weights are ignored/discarded; symmetric weights of both signs (random + every sign pattern on K3 and K4-e) for the '
         'directed = undirected clause; every documented spelling of `local` (False, True, \'global\', \'local\', \'original\') of efficiency_wei / '
-        'efficiency_bin on 0/1 input, shape and value against a brute-force BFS oracle; non-trivial = the matrix has at least one edge; distinct by hash of '
-        '(pair, matrix)')
+        'efficiency_bin on 0/1 input, shape and value against a brute-force BFS oracle; SELF-CONNECTIONS: every nonempty 0/1 diagonal on all '
+        'undirected graphs n<=3 / n<=4 and digraphs n<=2 / n<=3 (+ slices of the next size), the random 0/1 graphs again with random self-connections, '
+        'symmetric weighted graphs with weighted self-connections, weighted matrices with weighted self-connections for the ignore clause -- every '
+        'pair, and every modelled member against its model (per-node clustering through the visible-quotient model, inf = inf); the inexpensive '
+        'pairs (clustering, transitivity, degrees/strengths, distance, global efficiency, assortativity flags 0-4) on random graphs n = 9..16 with and '
+        'without self-connections; assortativity_wei/_bin flags 1-4 as direct pairs on every 0/1 matrix; the AST fact `first use of the matrix is '
+        'binarize(matrix)` for the eight binarising routines; non-trivial = the matrix has at least one edge (self-connection cases: at least one '
+        'self-connection); distinct by hash of (pair, matrix)')
 ASSUMES = ['PROVED between the Coq models: clustering_coef wu/bu wd/bd bd/bu wd/wu, transitivity likewise, strengths/degrees, '
            'in/out-degree on symmetric input; distance_wei/distance_bin (D and hop counts), efficiency_wei/efficiency_bin global and '
            'local, assortativity_wei/assortativity_bin (flags 0-4) on 0/1 input; f(W)==f(binarize(W)) for degrees_*, assortativity_bin '
            '(any weights), density_und/dir, jdegree, edge_nei_overlap_bu/bd, findwalks, reachdist, distance_bin, efficiency_bin',
-           'TESTED ONLY (differential, models belong to C08): betweenness_wei/bin, edge_betweenness_wei/bin on 0/1 input; findpaths raises '
-           '(known finding)',
+           'betweenness_wei/bin and edge_betweenness_wei/bin on 0/1 input: PROVED between C08\'s models (re-export of C08_wei_eq_bin_on_binary; the '
+           'models are tied to the code by C08\'s correspondence, here the two public functions are compared); findpaths raises (known finding)',
+           'self-connections: clustering_coef_wu/bu and bd/bu are REFUTED on symmetric 0/1 matrices with self-connections (inf vs 0 at nodes with '
+           'fewer than two neighbours on a closed 3-walk: C10_cc_*_selfloop_refuted, known findings <pair>:selfloop); at every other node, and for every '
+           'other pair, agreement is required and proved for any diagonal',
+           'local efficiencies must be finite (C10_eloc_no_division_by_zero); elsewhere inf == inf and nan == nan count as agreement',
+           'f(W) == f(binarize(W)) for findwalks / reachdist / distance_bin / efficiency_bin / jdegree / degrees_*: the Coq statement is about g(binarize(.)); '
+           'that the SOURCE has this shape is the fail-closed AST check <routine>:binarizes_first (any other first use of the matrix, a changed default of '
+           'ensure_binary, a nested helper reading the raw matrix -> VIOLATION, even if the rewrite were equivalent)',
            'the integer-input models (distance_bin, efficiency_bin, findwalks, reachdist) are fed 8*W for weights k/8',
            'tolerance 1e-9 relative; inf == inf, nan == nan']
 TRUSTED = ['cbrt is universally quantified in the theorems (hypothesis cbrt_ok: a cube root of the entries); cbrt_exact meets it on '
@@ -82,6 +99,10 @@ def decode_model(kind, m):
     """model output -> the shape of the implementation's return value (floats, inf, nan); None = non-finite scalar"""
     if kind == 'vecq':                      # option (list Q)
         return None if m is None else np.array([float(dec_q(x)) for x in m], dtype=float)
+    if kind == 'vec':                       # list Q
+        return np.array([float(dec_q(x)) for x in m], dtype=float)
+    if kind == 'cco':                       # list (option Q), None = +inf (nonzero cyc3 over a vanishing denominator)
+        return np.array([np.inf if x is None else float(dec_q(x)) for x in m], dtype=float)
     if kind == 'optq':                      # option Q (None = nan/inf)
         return None if m is None else float(dec_q(m))
     if kind == 'ext':                       # option ext
@@ -178,14 +199,130 @@ def o_eff_local(A, power):
     return E
 
 
+def all_finite(x):
+    if isinstance(x, (tuple, list)):
+        return all(all_finite(y) for y in x)
+    try:
+        return bool(np.all(np.isfinite(np.asarray(x, dtype=float))))
+    except Exception:
+        return False
+
+
+def o_selfloop_nodes(W):
+    """symmetric 0/1 matrix: the nodes with fewer than two nonzero entries in their row that lie on a closed walk of
+    length 3 (brute force over all (j, k)); with an empty diagonal there is none"""
+    n = len(W)
+    out = []
+    for i in range(n):
+        if sum(1 for j in range(n) if W[i][j] != 0) < 2 and any(W[i][j] != 0 and W[j][k] != 0 and W[k][i] != 0 for j in range(n) for k in range(n)):
+            out.append(i)
+    return out
+
+
+def with_diag(r, A, p=0.5):
+    """copy of A with self-connections of weight 1: each diagonal entry with probability p, at least one"""
+    n = len(A)
+    B = [[F(x) for x in row] for row in A]
+    hit = False
+    for i in range(n):
+        if r.rand() < p:
+            B[i][i] = F(1); hit = True
+    if not hit and n:
+        i = int(r.randint(0, n)); B[i][i] = F(1)
+    return B
+
+
+def all_diag(gen, n):
+    """every matrix of `gen(n)` with every NONEMPTY 0/1 diagonal"""
+    for A in gen(n):
+        for bits in itertools.product((0, 1), repeat=n):
+            if any(bits):
+                B = [[F(x) for x in row] for row in A]
+                for i, b_ in enumerate(bits):
+                    B[i][i] = F(b_)
+                yield B
+
+
+def o_degree_und(W):
+    """number of nonzero entries per column (a self-connection counts once)"""
+    n = len(W)
+    return [sum(1 for i in range(n) if W[i][j] != 0) for j in range(n)]
+
+
+# routines whose docstring says the weights are ignored / discarded and whose models binarise in their first line
+# (+ distance_bin / efficiency_bin, extras of C10_distance_efficiency_bin_ignore_weights): parameter that carries the matrix
+BINARIZES_FIRST = [('findwalks', 'CIJ'), ('reachdist', 'CIJ'), ('distance_bin', 'G'), ('efficiency_bin', 'G'), ('jdegree', 'CIJ'),
+                   ('degrees_und', 'CIJ'), ('degrees_dir', 'CIJ'), ('findpaths', 'CIJ')]
+
+
+def binarizes_first(fn_obj, param):
+    """fail-closed AST fact about the SOURCE: in the body of the function, the first statement that reads `param` rebinds
+    `param` to binarize(param[, copy=...]) (optionally .astype(float)), possibly under `if <flag>:` where <flag> is a
+    parameter whose default is True; nested function definitions that do not see `param` as a free variable are skipped;
+    `binarize` resolves to bct.utils.binarize.  After that statement no statement can read the raw weights, i.e. the
+    routine is g(binarize(param)) and C10_binarize_first_suffices applies.  -> (ok, reason)"""
+    import ast, inspect, textwrap
+    import bct
+    fn_obj = inspect.unwrap(fn_obj)                         # (the input-representation layer wraps the public functions)
+    try:
+        tree = ast.parse(textwrap.dedent(inspect.getsource(fn_obj)))
+    except Exception as e:
+        return False, 'no source: %r' % (e,)
+    fd = tree.body[0]
+    if not isinstance(fd, ast.FunctionDef):
+        return False, 'not a function definition'
+    args = [a.arg for a in fd.args.args]
+    if param not in args:
+        return False, 'no parameter %s' % param
+    defaults = dict(zip(args[len(args) - len(fd.args.defaults):], fd.args.defaults))
+    if fn_obj.__globals__.get('binarize') is not bct.utils.binarize:
+        return False, '`binarize` in the module of the routine is not bct.utils.binarize'
+
+    def reads(node, name):
+        return any(isinstance(x, ast.Name) and x.id == name and isinstance(x.ctx, ast.Load) for x in ast.walk(node))
+
+    def is_rebinding(st):
+        if not (isinstance(st, ast.Assign) and len(st.targets) == 1 and isinstance(st.targets[0], ast.Name) and st.targets[0].id == param):
+            return False
+        v = st.value
+        if (isinstance(v, ast.Call) and isinstance(v.func, ast.Attribute) and v.func.attr == 'astype' and len(v.args) == 1
+                and isinstance(v.args[0], ast.Name) and v.args[0].id == 'float' and not v.keywords):
+            v = v.func.value
+        if not (isinstance(v, ast.Call) and isinstance(v.func, ast.Name) and v.func.id == 'binarize'):
+            return False
+        if not (len(v.args) == 1 and isinstance(v.args[0], ast.Name) and v.args[0].id == param):
+            return False
+        return all(k.arg == 'copy' and isinstance(k.value, ast.Constant) and isinstance(k.value.value, bool) for k in v.keywords)
+
+    for st in fd.body:
+        if isinstance(st, ast.Expr) and isinstance(st.value, ast.Constant):
+            continue                                        # docstring
+        if isinstance(st, ast.FunctionDef):
+            inner = [a.arg for a in st.args.args]
+            if param in inner or not any(isinstance(x, ast.Name) and x.id == param for x in ast.walk(st)):
+                continue                                    # the nested helper has its own `param` or never mentions it
+            return False, 'nested function %s reads %s of the enclosing routine' % (st.name, param)
+        if not any(isinstance(x, ast.Name) and x.id == param for x in ast.walk(st)):
+            continue                                        # does not touch the matrix
+        if is_rebinding(st):
+            return True, 'first use: ' + ast.unparse(st)
+        if (isinstance(st, ast.If) and isinstance(st.test, ast.Name) and st.test.id in defaults and not st.orelse
+                and isinstance(defaults[st.test.id], ast.Constant) and defaults[st.test.id].value is True
+                and len(st.body) == 1 and is_rebinding(st.body[0])):
+            return True, 'first use (flag %s, default True): %s' % (st.test.id, ast.unparse(st.body[0]))
+        return False, 'the first statement that touches %s is `%s`' % (param, ast.unparse(st).split('\n')[0][:120])
+    return False, 'the body never touches %s' % param
+
+
 class Pairs:
     def __init__(self, ctx, bct):
         self.ctx, self.bct = ctx, bct
         self.lines, self.pend = [], []
         self.nbin = 0
 
-    def pair(self, key, W, f, g, family):
-        """direct oracle of C10: the two public functions must return the same on W"""
+    def pair(self, key, W, f, g, family, finite=False):
+        """direct oracle of C10: the two public functions must return the same on W; finite=True: and no entry of either
+        result may be inf/nan (C10_eloc_no_division_by_zero: the local efficiencies never divide by zero)"""
         ctx = self.ctx
         case = {'pair': key, 'W': G9.strs(W)}
         ctx.case(case, nontrivial=any(x != 0 for row in W for x in row))
@@ -206,6 +343,42 @@ class Pairs:
             ctx.fail(key + ':raises', 'left: %r right: %r' % (a if isinstance(a, Exception) else 'ok', b if isinstance(b, Exception) else 'ok'), case)
             return None
         ctx.check(same(a, b), key, 'the two routines differ: %r vs %r' % (brief(a), brief(b)), case)
+        if finite:
+            ctx.check(all_finite(a) and all_finite(b), key + ':finite', 'non-finite entry: %r vs %r' % (brief(a), brief(b)), case)
+        return a
+
+    def pair_selfloop(self, key, W, f, g, family):
+        """clustering_coef_wu/bu and bd/bu on a symmetric 0/1 matrix WITH self-connections (C10_cc_any_diagonal): every
+        node must get the same finite value from both routines, except the nodes the theorem singles out -- fewer than two
+        nonzero entries in the row and a closed 3-walk (necessarily through a self-connection) -- where the left routine
+        returns inf and clustering_coef_bu 0: that is the recorded finding `<pair>:selfloop` (C10_cc_*_selfloop_refuted);
+        both returning the same finite value there (a repaired tree) is accepted"""
+        ctx = self.ctx
+        case = {'pair': key, 'W': G9.strs(W)}
+        ctx.case(case, nontrivial=any(W[i][i] != 0 for i in range(len(W))))
+        ctx.count('pair:' + key + ':selfloop_input'); ctx.count('family:' + family); ctx.count('n=%d' % len(W))
+        A = G9.npm(W)
+        ctx.take_variants()
+        try:
+            with np.errstate(all='ignore'):
+                a = np.asarray(call(f, A.copy()), dtype=float); b = np.asarray(call(g, A.copy()), dtype=float)
+        except Exception as e:
+            tie_variants(case, since_take=True)
+            ctx.fail(key + ':raises', repr(e), case); return None
+        tie_variants(case, since_take=True)
+        n = len(W)
+        if a.shape != (n,) or b.shape != (n,):
+            ctx.fail(key, 'shapes %r / %r' % (a.shape, b.shape), case); return None
+        special = o_selfloop_nodes(W)
+        bad = [i for i in range(n) if i not in special and not (np.isfinite(a[i]) and np.isfinite(b[i]) and same(a[i], b[i]))]
+        ctx.check(not bad, key, 'the two routines differ at node(s) %r: %r vs %r' % (bad, a.tolist(), b.tolist()), case)
+        hit = [i for i in special if np.isinf(a[i]) and b[i] == 0]
+        odd = [i for i in special if i not in hit and not (np.isfinite(a[i]) and np.isfinite(b[i]) and same(a[i], b[i]))]
+        ctx.check(not odd, key, 'the two routines differ at node(s) %r (fewer than two neighbours, closed 3-walk): %r vs %r' % (odd, a.tolist(), b.tolist()), case)
+        if hit:
+            ctx.count('selfloop_inf_nodes', len(hit))
+            ctx.fail(key + ':selfloop', 'node(s) %r: inf from the %s routine, 0 from clustering_coef_bu: %r vs %r'
+                     % (hit, key.split('/')[0], a.tolist(), b.tolist()), case)
         return a
 
     def ignores(self, fn, W, f, family, tolerate=()):
@@ -340,10 +513,11 @@ class Pairs:
         self.pair('edge_betweenness_wei/edge_betweenness_bin', A, lambda M: tuple(bct.edge_betweenness_wei(M)),
                   lambda M: tuple(bct.edge_betweenness_bin(M)), family)
         self.pair('efficiency_wei/efficiency_bin:global', A, bct.efficiency_wei, bct.efficiency_bin, family)
-        self.pair('efficiency_wei/efficiency_bin:local', A, lambda M: bct.efficiency_wei(M, True), lambda M: bct.efficiency_bin(M, True), family)
+        self.pair('efficiency_wei/efficiency_bin:local', A, lambda M: bct.efficiency_wei(M, True), lambda M: bct.efficiency_bin(M, True), family, finite=True)
         self.pair("efficiency_wei['global']/efficiency_bin:global", A, lambda M: bct.efficiency_wei(M, 'global'), lambda M: bct.efficiency_bin(M, False), family)
-        self.pair("efficiency_wei['local']/efficiency_bin:local", A, lambda M: bct.efficiency_wei(M, 'local'), lambda M: bct.efficiency_bin(M, True), family)
+        self.pair("efficiency_wei['local']/efficiency_bin:local", A, lambda M: bct.efficiency_wei(M, 'local'), lambda M: bct.efficiency_bin(M, True), family, finite=True)
         self.efficiency_spellings(A, family)
+        self.assort_flags(A, family)
         s = self.pair('strengths_dir/degrees_dir', A, bct.strengths_dir, lambda M: bct.degrees_dir(M)[2], family)
         if s is not None:
             self.model('strengths_dir', 'deg ' + enc_mat(A, enc_q) + ' 5', {'fn': 'strengths_dir', 'W': G9.strs(A)}, s)
@@ -353,6 +527,57 @@ class Pairs:
             self.corr_binary(A, not und)
             if und and self.nbin % 4 == 0:
                 self.corr_binary(A, True)          # the directed flags on a symmetric matrix as well
+
+    def assort_flags(self, A, family):
+        """assortativity_wei / assortativity_bin, the directed flags 1-4, as DIRECT pairs on the implementation
+        (C10_assortativity_wei_bin_eq_bin covers every flag; the text names flag 0, compared in binary_und)"""
+        bct = self.bct
+        for fl in (1, 2, 3, 4):
+            self.pair('assortativity_wei/assortativity_bin[flag=%d]' % fl, A,
+                      lambda M, fl=fl: bct.assortativity_wei(M, fl), lambda M, fl=fl: bct.assortativity_bin(M, fl), family)
+
+    def corr_diag(self, A, sym):
+        """0/1 input WITH self-connections: the clustering / transitivity / degree models (Model/Clustering.v; the per-node
+        routines through Model/ClusteringInf.v, None = inf) against the implementation -- C09's correspondence stays on the
+        empty diagonal -- and the distance / efficiency / assortativity models"""
+        bct = self.bct
+        Q = enc_mat(A, enc_q)
+        self.corr('clustering_coef_bd', 'cco', 'cc_o %s 0' % Q, A, bct.clustering_coef_bd)
+        self.corr('clustering_coef_wd', 'cco', 'cc_o %s 1' % Q, A, bct.clustering_coef_wd)
+        self.corr('transitivity_bd', 'optq', 'trans %s 1' % Q, A, bct.transitivity_bd)
+        self.corr('transitivity_wd', 'optq', 'trans %s 3' % Q, A, bct.transitivity_wd)
+        self.corr('degrees_dir', 'vec', 'deg %s 3' % Q, A, lambda M: bct.degrees_dir(M)[2])
+        self.corr('strengths_dir', 'vec', 'deg %s 5' % Q, A, bct.strengths_dir)
+        if sym:
+            self.corr('clustering_coef_wu', 'cco', 'cc_o %s 2' % Q, A, bct.clustering_coef_wu)
+            self.corr('clustering_coef_bu', 'vec', 'cc_bu ' + Q, A, bct.clustering_coef_bu)
+            self.corr('transitivity_bu', 'optq', 'trans %s 0' % Q, A, bct.transitivity_bu)
+            self.corr('transitivity_wu', 'optq', 'trans %s 2' % Q, A, bct.transitivity_wu)
+            self.corr('degrees_und', 'vec', 'deg %s 0' % Q, A, bct.degrees_und)
+            self.corr('strengths_und', 'vec', 'deg %s 4' % Q, A, bct.strengths_und)
+        self.corr_binary(A, not sym)
+        if sym:
+            self.corr_binary(A, True)
+
+    def cheap(self, A, sym, diag, family):
+        """the inexpensive pairs on larger matrices (n up to 16), no model line; degrees against a brute-force count"""
+        bct, ctx = self.bct, self.ctx
+        self.pair('clustering_coef_wd/clustering_coef_bd', A, bct.clustering_coef_wd, bct.clustering_coef_bd, family)
+        self.pair('transitivity_wd/transitivity_bd', A, bct.transitivity_wd, bct.transitivity_bd, family)
+        self.pair('strengths_dir/degrees_dir', A, bct.strengths_dir, lambda M: bct.degrees_dir(M)[2], family)
+        self.pair('distance_wei/distance_bin', A, lambda M: bct.distance_wei(M)[0], bct.distance_bin, family)
+        self.pair('efficiency_wei/efficiency_bin:global', A, bct.efficiency_wei, bct.efficiency_bin, family)
+        self.assort_flags(A, family)
+        if sym:
+            self.binary_und(A, family, diag=diag)
+            self.symmetric(A, family, diag=diag)
+            case = {'pair': 'degrees_und:count', 'W': G9.strs(A)}
+            ctx.case(case, nontrivial=True)
+            try:
+                d = call(bct.degrees_und, G9.npm(A)); tie_variants(case)
+                ctx.check(same(d, o_degree_und(A)), 'degrees_und:count', 'degree is the number of nonzero entries of the column: %r vs %r' % (brief(d), o_degree_und(A)), case)
+            except Exception as e:
+                ctx.fail('degrees_und:raises', repr(e), case)
 
     def efficiency_spellings(self, A, family):
         """0/1 input: every documented spelling of `local` (efficiency_wei: False, 'global', True, 'local', 'original';
@@ -384,8 +609,18 @@ class Pairs:
                 ok = r.shape == (n,) and all(np.isfinite(g) and abs(g - e) <= TOL * max(1.0, abs(e)) for e, g in zip(want, r))
                 ctx.check(ok, key + ':local_value', 'expected the local efficiency vector %r, got %r' % (want, r.tolist()), case)
 
-    def binary_und(self, A, family):
+    def binary_und(self, A, family, diag=False):
+        """symmetric 0/1 input; diag=True: the matrix carries self-connections -- the two pairs that need an empty diagonal
+        (C10_cc_wu_bu_selfloop_refuted, C10_cc_bd_bu_selfloop_refuted) are judged node by node, every other pair as usual"""
         bct = self.bct
+        if diag:
+            self.pair_selfloop('clustering_coef_wu/clustering_coef_bu', A, bct.clustering_coef_wu, bct.clustering_coef_bu, family)
+            self.pair_selfloop('clustering_coef_bd/clustering_coef_bu', A, bct.clustering_coef_bd, bct.clustering_coef_bu, family)
+            self.pair('transitivity_wu/transitivity_bu', A, bct.transitivity_wu, bct.transitivity_bu, family)
+            self.pair('strengths_und/degrees_und', A, bct.strengths_und, bct.degrees_und, family)
+            self.pair('assortativity_wei/assortativity_bin', A, lambda M: bct.assortativity_wei(M, 0), lambda M: bct.assortativity_bin(M, 0), family)
+            self.pair('transitivity_bd/transitivity_bu', A, bct.transitivity_bd, bct.transitivity_bu, family)
+            return
         self.pair('clustering_coef_wu/clustering_coef_bu', A, bct.clustering_coef_wu, bct.clustering_coef_bu, family)
         self.pair('transitivity_wu/transitivity_bu', A, bct.transitivity_wu, bct.transitivity_bu, family)
         s = self.pair('strengths_und/degrees_und', A, bct.strengths_und, bct.degrees_und, family)
@@ -401,10 +636,17 @@ class Pairs:
             self.model('transitivity_bd', 'trans ' + enc_mat(A, enc_q) + ' 1', {'fn': 'transitivity_bd', 'W': G9.strs(A)}, t)
 
     # ---------------------------------------------------------------- symmetric (weighted) input: directed = undirected
-    def symmetric(self, W, family):
+    def symmetric(self, W, family, diag=False):
+        """diag=True: W carries self-connections (no theorem of this group has a hypothesis on the diagonal); the per-node
+        model is then the one with the visible quotient (Model/ClusteringInf.v, inf = inf)"""
         bct = self.bct
         c = self.pair('clustering_coef_wd/clustering_coef_wu', W, bct.clustering_coef_wd, bct.clustering_coef_wu, family)
-        if c is not None:
+        if c is not None and diag:
+            case = {'fn': 'clustering_coef_wd', 'W': G9.strs(W)}
+            if getattr(self, '_pv', None):
+                case['_input_variant'] = self._pv
+            self.lines.append('cc_o %s 1' % enc_mat(W, enc_q)); self.pend.append(('corr:cco:clustering_coef_wd', case, c))
+        elif c is not None:
             self.model('clustering_coef_wd', 'cc_wd ' + enc_mat(W, enc_q), {'fn': 'clustering_coef_wd', 'W': G9.strs(W)}, c)
         t = self.pair('transitivity_wd/transitivity_wu', W, bct.transitivity_wd, bct.transitivity_wu, family)
         if t is not None:
@@ -449,6 +691,15 @@ def run(ctx):
     r = ctx.nprng
     P = Pairs(ctx, bct)
     sink = io.StringIO()
+    # ---- the SOURCE binarises first (fail-closed AST fact; C10_binarize_first_suffices turns it into f(W) = f(binarize(W)))
+    facts = {}
+    for fn, param in BINARIZES_FIRST:
+        ok, why = binarizes_first(getattr(bct, fn), param)
+        facts[fn] = why
+        case = {'pair': fn + ':binarizes_first', 'parameter': param}
+        ctx.case(case, nontrivial=True); ctx.count('ast:binarizes_first')
+        ctx.check(ok, fn + ':binarizes_first', 'the first statement of %s that reads %s is not `%s = binarize(%s...)`: %s' % (fn, param, param, param, why), case)
+    ctx.extra['binarizes_first'] = facts
     with contextlib.redirect_stdout(sink):        # findpaths prints progress
         # ---- exhaustive small 0/1 graphs
         for n in range(1, ctx.scale(4, 5) + 1):
@@ -466,6 +717,34 @@ def run(ctx):
             for A in itertools.islice(G9.all_dir(4), 5, 4096, 67):
                 A = [[F(x) for x in row] for row in A]
                 P.binary_any(A, 'slice_dir4')
+        # ---- self-connections: every NONEMPTY 0/1 diagonal on the small graphs
+        for n in range(1, ctx.scale(3, 4) + 1):
+            for A in all_diag(G9.all_und, n):
+                P.binary_und(A, 'exhaustive_und_diag', diag=True); P.binary_any(A, 'exhaustive_und_diag'); P.corr_diag(A, True)
+        for n in range(1, ctx.scale(2, 3) + 1):
+            for A in all_diag(G9.all_dir, n):
+                P.binary_any(A, 'exhaustive_dir_diag'); P.corr_diag(A, False)
+        if not ctx.thorough:
+            for A in itertools.islice(all_diag(G9.all_und, 4), 7, 960, 41):
+                P.binary_und(A, 'slice_und4_diag', diag=True); P.binary_any(A, 'slice_und4_diag'); P.corr_diag(A, True)
+            for A in itertools.islice(all_diag(G9.all_dir, 3), 3, 448, 19):
+                P.binary_any(A, 'slice_dir3_diag'); P.corr_diag(A, False)
+        # the Coq witness of C10_cc_wu_bu_selfloop_refuted / C10_cc_bd_bu_selfloop_refuted, and the audit's 6-node graph
+        for A in ([[1, 1], [1, 0]], [[1]],
+                  [[1, 1, 0, 0, 0, 0], [1, 0, 0, 0, 0, 1], [0, 0, 1, 1, 0, 1], [0, 0, 1, 1, 0, 0], [0, 0, 0, 0, 0, 1], [0, 1, 1, 0, 1, 1]]):
+            A = [[F(x) for x in row] for row in A]
+            P.binary_und(A, 'coq_witness_selfloop', diag=True); P.corr_diag(A, True)
+        # ---- the inexpensive pairs on larger matrices, with and without self-connections
+        for t in range(ctx.scale(8, 60)):
+            n = int(r.randint(9, 17)); dens = float(r.choice([0.1, 0.25, 0.5]))
+            A = G9.rand_und(r, n, dens)
+            if t % 2:
+                A = with_diag(r, A, 0.3)
+            P.cheap(A, True, bool(t % 2), 'large_und' + ('_diag' if t % 2 else ''))
+            D = G9.rand_dir(r, n, dens * 0.7)
+            if not t % 2:
+                D = with_diag(r, D, 0.3)
+            P.cheap(D, False, not t % 2, 'large_dir' + ('' if t % 2 else '_diag'))
         # ---- random
         for t in range(ctx.scale(40, 400)):
             n = int(r.randint(2, 9)); dens = float(r.choice([0.2, 0.4, 0.7, 1.0]))
@@ -475,10 +754,23 @@ def run(ctx):
             P.binary_und(A, 'random_und'); P.binary_any(A, 'random_und')
             D = G9.rand_dir(r, n, dens * 0.7)
             P.binary_any(D, 'random_dir')
+            # the same graphs with self-connections
+            Ad = with_diag(r, A, float(r.choice([0.2, 0.6])))
+            P.binary_und(Ad, 'random_und_diag', diag=True); P.binary_any(Ad, 'random_und_diag'); P.symmetric(Ad, 'binary_sym_diag', diag=True)
+            Dd = with_diag(r, D, float(r.choice([0.2, 0.6])))
+            P.binary_any(Dd, 'random_dir_diag')
+            if t % 3 == 0:
+                P.corr_diag(Ad, True); P.corr_diag(Dd, False)
             W = G9.rand_und(r, n, dens, G9.cube_w)
             if t % 4 == 1:
                 G9.isolate(r, W)
             P.symmetric(W, 'weighted_sym'); P.symmetric(A, 'binary_sym')
+            if t % 2 == 0:      # symmetric WEIGHTED input with weighted self-connections
+                Wdg = [row[:] for row in W]
+                for i in range(n):
+                    if r.rand() < 0.4:
+                        Wdg[i][i] = G9.cube_w(r)
+                P.symmetric(Wdg, 'weighted_sym_diag', diag=True)
             # symmetric weights of BOTH signs (cuberoot keeps the sign; degrees count every nonzero entry)
             Wsg = [[(-x if (min(i, j) * 5 + max(i, j) * 3 + t) % 3 == 0 else x) for j, x in enumerate(row)] for i, row in enumerate(W)]
             P.symmetric(Wsg, 'signed_sym')
@@ -492,6 +784,15 @@ def run(ctx):
             Wu = G9.rand_und(r, n, dens, any_w)
             Wd = G9.rand_dir(r, n, dens * 0.7, any_w)
             P.ignore_weights(Wu, False, 'weighted_und'); P.ignore_weights(Wd, True, 'weighted_dir')
+            if t % 3 == 1:      # weighted self-connections are ignored as well
+                Wud = [row[:] for row in Wu]; Wdd = [row[:] for row in Wd]
+                for i in range(n):
+                    if r.rand() < 0.5:
+                        Wud[i][i] = any_w(r)
+                    if r.rand() < 0.5:
+                        Wdd[i][i] = any_w(r)
+                P.ignore_weights(Wud, False, 'weighted_und_diag'); P.ignore_weights(Wdd, True, 'weighted_dir_diag')
+                P.corr_ignore(Wud, False); P.corr_ignore(Wdd, True)
             P.corr_weighted(Wu, False, False); P.corr_weighted(Wd, True, False)
             P.corr_ignore(Wu, False); P.corr_ignore(Wd, True)
             if t % 4 == 0:          # negative weights are ignored too
